@@ -127,3 +127,59 @@ pub fn cmd_replay(args: &[String]) {
     }
     emit(&mut w, &json!({"summary": true, "cases": ncases, "checks": nchecks, "bad": bad}));
 }
+
+// ---------------------------------------------------------------------------------------------------------
+// evaluation sessions (EvalSession.tla): every call history of the bound is replayed into a real Evaluator
+
+fn kind_ty(k: &str) -> &'static str { match k { "u8" => "u8", "bool" => "bool", "i16" => "i16", "pair" => "(u8, bool)", _ => "[u8; 2]" } }
+fn kind_literal(k: &str) -> Literal {
+    match k {
+        "u8" => Literal::NumUnsigned(7, UnsignedNumType::U8),
+        "bool" => Literal::True,
+        "i16" => Literal::NumSigned(-3, SignedNumType::I16),
+        "pair" => Literal::Tuple(vec![Literal::NumUnsigned(7, UnsignedNumType::U8), Literal::True]),
+        _ => Literal::Array(vec![Literal::NumUnsigned(1, UnsignedNumType::U8), Literal::NumUnsigned(2, UnsignedNumType::U8)]),
+    }
+}
+fn kind_text(k: &str) -> &'static str { match k { "u8" => "7u8", "bool" => "true", "i16" => "-3i16", "pair" => "(7u8, true)", _ => "[1u8, 2u8]" } }
+
+/// session-replay <cases.ndjson> <results.ndjson>
+pub fn cmd_session_replay(args: &[String]) {
+    quiet_panics();
+    let mut w = writer(&args[1]);
+    let mut programs: std::collections::HashMap<String, garble_lang::GarbleProgram> = std::collections::HashMap::new();
+    let (mut n, mut bad) = (0u64, 0u64);
+    for line in read_lines(&args[0]) {
+        let c: Value = serde_json::from_str(&line).unwrap();
+        n += 1;
+        let params: Vec<&str> = c["params"].as_array().unwrap().iter().map(|p| p.as_str().unwrap()).collect();
+        let sig = params.join(",");
+        if !programs.contains_key(&sig) {
+            let src = format!("pub fn main({}) -> u8 {{ 0u8 }}", params.iter().enumerate().map(|(i, k)| format!("p{i}: {}", kind_ty(k))).collect::<Vec<_>>().join(", "));
+            match guarded(|| garble_lang::compile(&src)) { Ok(Ok(p)) => { programs.insert(sig.clone(), p); } other => { emit(&mut w, &json!({"bad": true, "what": "signature-program-rejected", "case": c, "observed": format!("{:?}", other.map(|r| r.map(|_| ()).map_err(|e| e.prettify(&src))))})); bad += 1; continue; } }
+        }
+        let prg = &programs[&sig];
+        let hist = c["hist"].as_array().unwrap();
+        let outcome = guarded(|| {
+            let mut ev = prg.evaluator();
+            let mut obs: Vec<bool> = vec![];
+            for h in hist {
+                let k = h["k"].as_str().unwrap();
+                match h["c"].as_str().unwrap() {
+                    "prim" => { match k { "u8" => ev.set_u8(7), "bool" => ev.set_bool(true), _ => ev.set_i16(-3) }; obs.push(true); }
+                    "lit" => obs.push(ev.set_literal(kind_literal(k)).is_ok()),
+                    "text" => obs.push(ev.parse_literal(kind_text(k)).is_ok()),
+                    _ => { obs.push(ev.run().is_ok()); break; }
+                }
+            }
+            obs
+        });
+        let expected: Vec<bool> = hist.iter().map(|h| h["ok"].as_bool().unwrap()).collect();
+        match outcome {
+            Ok(obs) if obs == expected => {}
+            Ok(obs) => { bad += 1; emit(&mut w, &json!({"bad": true, "what": "session-outcome", "case": c, "observed": obs})); }
+            Err(m) => { bad += 1; emit(&mut w, &json!({"bad": true, "what": "session-panic", "case": c, "observed": m})); }
+        }
+    }
+    emit(&mut w, &json!({"summary": true, "n": n, "bad": bad}));
+}
